@@ -482,13 +482,14 @@ fn hash_row(row: &[Value]) -> u64 {
 
     let mut hasher = DefaultHasher::new();
     for value in row {
+        // The type tag is part of the key: NULL, false, 0 and 0.0 are different values
         match value {
             Value::Null => 0u8.hash(&mut hasher),
-            Value::Bool(b) => b.hash(&mut hasher),
-            Value::Int64(i) => i.hash(&mut hasher),
-            Value::Float64(f) => f.to_bits().hash(&mut hasher),
-            Value::String(s) => s.hash(&mut hasher),
-            _ => 0u8.hash(&mut hasher),
+            Value::Bool(b) => (1u8, b).hash(&mut hasher),
+            Value::Int64(i) => (2u8, i).hash(&mut hasher),
+            Value::Float64(f) => (3u8, f.to_bits()).hash(&mut hasher),
+            Value::String(s) => (4u8, s).hash(&mut hasher),
+            _ => 5u8.hash(&mut hasher),
         }
     }
     hasher.finish()
